@@ -148,6 +148,35 @@ def check_dt(acc, pendulum, z, f, kw, durations=True, fold=1):
         acc.mismatch("minus-Duration", "three-spellings-disagree", case, vals, "all equal")
     elif exp is not None and vals["minus-Duration"] is not None and vals["minus-Duration"] != exp:
         acc.mismatch("minus-Duration", "value", case, vals["minus-Duration"], exp)
+    # reflected operand order, and Durations with the same components obtained by arithmetic instead of from the
+    # constructor (their raw constructor arguments differ from d's; their components do not)
+    r = _try(lambda: d + x)
+    acc.c["evaluations"] += 1
+    if (None if r is None else _obs(r)) != (None if (e1 := expected(z, f, kw, 1)) is None else e1) and e1 is not None:
+        acc.mismatch("Duration-plus-dt", "value", case, None if r is None else _obs(r), e1)
+    for vname, mk in DERIVED:
+        dv = _try(lambda: mk(pendulum, d))
+        if dv is None:
+            continue
+        rs = {"minus": _try(lambda: x - dv), "plus-negated": _try(lambda: x + (-dv))}
+        acc.c["evaluations"] += 2
+        acc.c["transitions"] += 2
+        for k, v in rs.items():
+            got = None if v is None else _obs(v)
+            if got != vals["subtract-components"]:
+                acc.mismatch("minus-Duration", f"derived-{vname}/{k}", case, got, vals["subtract-components"])
+
+
+def _no_ym(d):
+    # Duration + Duration is timedelta addition: years and months turn into 365 / 30 days (C10), so the sum only
+    # has "the same components" when there are none
+    if d.years or d.months:
+        raise ValueError("not component-preserving")
+    return d
+
+
+DERIVED = (("times-one", lambda p, d: d * 1), ("plus-zero", lambda p, d: _no_ym(d) + p.Duration()),
+           ("halves", lambda p, d: (_no_ym(d) - p.Duration(days=3, seconds=5)) + p.Duration(days=3, seconds=5)))
 
 
 def check_date(acc, pendulum, f3, kw):
@@ -181,6 +210,22 @@ def check_date(acc, pendulum, f3, kw):
         got = None if r is None else (r.year, r.month, r.day)
         if got != e[:3]:
             acc.mismatch(name, "value", case, got, e[:3])
+    for vname, mk in DERIVED + (("hours", lambda p, dd: p.Duration(years=dd.years, months=dd.months,
+                                                                  hours=24 * (dd.weeks * 7 + dd.remaining_days))),):
+        dv = _try(lambda: mk(pendulum, d))
+        if dv is None:
+            continue
+        for name, sign, fn in ((f"date-plus-Duration/{vname}", 1, lambda: x + dv), (f"date-minus-Duration/{vname}", -1, lambda: x - dv),
+                               (f"Duration-plus-date/{vname}", 1, lambda: dv + x)):
+            e = add_wall(f, comp, sign)
+            if e is None:
+                continue
+            r = _try(fn)
+            acc.c["evaluations"] += 1
+            acc.c["transitions"] += 1
+            got = None if r is None else (r.year, r.month, r.day)
+            if got != e[:3]:
+                acc.mismatch(name.split("/")[0], f"derived-{vname}", case, got, e[:3])
     if "days" in kw or "weeks" in kw:
         nd = kw.get("days", 0) + 7 * kw.get("weeks", 0)
         td = dt_.timedelta(days=nd, seconds=3600)   # a Date ignores the time part of a plain timedelta
